@@ -59,6 +59,12 @@ def cases(tier, seed):
 
 
 REMID_CORPUS = [
+    # adjacent multi-controlled wrappers of different inner gates on the same wires are not an identity
+    {"nq": 3, "spec": [["g", "mcx2", [0, 1, 2]], ["sib", "mcz2"], ["g", "h", [2]]]},
+    {"nq": 2, "spec": [["g", "h", [1]], ["g", "mch1", [0, 1]], ["sib", "mcy1"]]},
+    {"nq": 2, "spec": [["g", "mcx1", [0, 1]], ["sib", "mcz1"], ["g", "x", [0]]]},
+    {"nq": 2, "spec": [["g", "mcx1", [0, 1]], ["bar"], ["g", "mcz1", [0, 1]]]},
+    {"nq": 2, "spec": [["g", "mcx1", [0, 1]], ["sib", "mcx1"]]},
     {"nq": 2, "spec": [["g", "x", [0]], ["dup"], ["g", "cx", [0, 1]]]},
     {"nq": 2, "spec": [["g", "cx", [0, 1]], ["g", "x", [0]], ["dup"]]},
     {"nq": 2, "spec": [["g", "h", [0]], ["g", "x", [1]], ["bar"], ["dup2"]]},
@@ -86,8 +92,10 @@ def remid_spec(rng):
             out.append(["dupperm"])
         elif r < 0.55:
             out.append(["bar"])
+        elif r < 0.63 and out and out[-1][0] in ("g", "sib"):
+            out.append(["sib", rng.choice(["mcx1", "mcz1", "mch1", "mcy1", "mcx2", "mcz2", "x", "cx", "cz", "z"])])
         else:
-            out.append(["g", rng.choice(["x", "x", "cx", "h", "z", "ccx", "s", "t", "swap", "cz", "y"]), None])
+            out.append(["g", rng.choice(["x", "x", "cx", "h", "z", "ccx", "s", "t", "swap", "cz", "y", "mcx1", "mcz1", "mcx2", "mch1"]), None])
     return out
 
 
@@ -260,7 +268,10 @@ def check_remid(case):
     rng = random.Random(str(case["spec"]) + str(case["nq"]))
     nq = case["nq"]
     qc = QCircuitEnhanced(nq)
-    names = {"x": gates.X, "h": gates.H, "z": gates.Z, "y": gates.Y, "s": gates.S, "t": gates.T, "cx": gates.CX, "cz": gates.CZ, "ccx": gates.CCX, "swap": gates.Swap, "cp": gates.CP}
+    names = {"x": gates.X, "h": gates.H, "z": gates.Z, "y": gates.Y, "s": gates.S, "t": gates.T, "cx": gates.CX, "cz": gates.CZ, "ccx": gates.CCX, "swap": gates.Swap, "cp": gates.CP,
+             # generic multi-controlled wrappers: same class and arity, different inner gate
+             "mcx1": lambda: gates.MCtrl(gates.X(), 1), "mcz1": lambda: gates.MCtrl(gates.Z(), 1), "mch1": lambda: gates.MCtrl(gates.H(), 1), "mcy1": lambda: gates.MCtrl(gates.Y(), 1),
+             "mcx2": lambda: gates.MCtrl(gates.X(), 2), "mcz2": lambda: gates.MCtrl(gates.Z(), 2)}
     last = None
     prev_before_bar = None
     pairs = 0
@@ -283,6 +294,13 @@ def check_remid(case):
             qc.append(g, list(w), p)
             last = (g, list(w), p)
             desc.append((type(g).__name__, list(w)))
+        elif st[0] == "sib" and last is not None:
+            # a DIFFERENT gate object (possibly another gate of the same class and arity) on the same wires
+            g = names[st[1]]()
+            if g.n_qubits == len(last[1]):
+                qc.append(g, list(last[1]), None)
+                desc.append(("other-object-same-wires", st[1], list(last[1])))
+                last = (g, list(last[1]), None)
         elif st[0] == "dup" and last is not None:
             qc.append(last[0], list(last[1]), last[2])
             pairs += 1
